@@ -4,8 +4,19 @@
 From Coq Require Import String.
 From Boreal Require Import Base.Prelude Base.Res Model.ModuleTypes Model.ModuleTrees.
 
+Definition prim_eqb (a b : prim) : bool :=
+  match a, b with
+  | PInteger x, PInteger y => Z.eqb x y
+  | PFloat x, PFloat y => N.eqb x y
+  | PBytes x, PBytes y => bytes_eqb x y
+  | PRegex x, PRegex y => N.eqb x y
+  | PBoolean x, PBoolean y => Bool.eqb x y
+  | _, _ => false
+  end.
+
 (* ---- what the harness prints: a module value, with arrays / dictionaries / byte strings pruned to a bounded
-   number of leading elements but their real sizes kept.  Functions are opaque. *)
+   number of leading elements but their real sizes kept.  A function is shown by a finite sample of its graph: the
+   harness called it on each listed argument list (None = the function returned None). *)
 Inductive dvalue : Type :=
 | DInteger (z : Z)
 | DFloat (bits : N)
@@ -15,7 +26,7 @@ Inductive dvalue : Type :=
 | DObject (fields : list (string * dvalue))
 | DArray (len : N) (kept : list dvalue)
 | DDict (len : N) (kept : list (list N * dvalue))
-| DFunction
+| DFunction (samples : list (list prim * option dvalue))
 | DUndefined.
 
 (* the module value the evaluator sees, restricted to what was kept *)
@@ -29,8 +40,23 @@ Fixpoint to_mvalue (d : dvalue) : mvalue :=
   | DObject fields => VObject (map (fun kv => (fst kv, to_mvalue (snd kv))) fields)
   | DArray _ kept => VArray (map to_mvalue kept)
   | DDict _ kept => VDict (map (fun kv => (fst kv, to_mvalue (snd kv))) kept)
-  | DFunction => VFunction (fun _ => None)
+  | DFunction samples =>
+      VFunction (fun args =>
+                   (fix go (l : list (list prim * option dvalue)) : option mvalue :=
+                      match l with
+                      | [] => None
+                      | (a, r) :: l' =>
+                          if list_eqb prim_eqb a args
+                          then match r with Some d' => Some (to_mvalue d') | None => None end
+                          else go l'
+                      end) samples)
   | DUndefined => VUndefined
+  end.
+
+Fixpoint sample_get (args : list prim) (l : list (list prim * option dvalue)) : option (option dvalue) :=
+  match l with
+  | [] => None
+  | (a, r) :: l' => if list_eqb prim_eqb a args then Some r else sample_get args l'
   end.
 
 (* ---- structural sanity of a dump: kept elements never exceed the reported size *)
@@ -47,6 +73,54 @@ Fixpoint dump_wf (d : dvalue) : bool :=
       (nlen kept <=? len)
       && (fix go (l : list (list N * dvalue)) : bool :=
             match l with [] => true | (_, d') :: l' => dump_wf d' && go l' end) kept
+  | DFunction samples =>
+      (fix go (l : list (list prim * option dvalue)) : bool :=
+         match l with
+         | [] => true
+         | (_, Some d') :: l' => dump_wf d' && go l'
+         | (_, None) :: l' => go l'
+         end) samples
+  | _ => true
+  end.
+
+(* every sampled result of a published function conforms to the declared return type (the part of Conforms that the
+   boolean `conforms` leaves out, on the sample) *)
+Fixpoint fn_samples_ok (ty : mtype) (d : dvalue) : bool :=
+  match d with
+  | DObject fields =>
+      match ty with
+      | TObject ftys =>
+          (fix go (l : list (string * dvalue)) : bool :=
+             match l with
+             | [] => true
+             | (k, d') :: l' =>
+                 match assoc k ftys with Some t => fn_samples_ok t d' | None => true end && go l'
+             end) fields
+      | _ => true
+      end
+  | DArray _ kept =>
+      match ty with
+      | TArray e => (fix go (l : list dvalue) : bool :=
+                       match l with [] => true | d' :: l' => fn_samples_ok e d' && go l' end) kept
+      | _ => true
+      end
+  | DDict _ kept =>
+      match ty with
+      | TDict e => (fix go (l : list (list N * dvalue)) : bool :=
+                      match l with [] => true | (_, d') :: l' => fn_samples_ok e d' && go l' end) kept
+      | _ => true
+      end
+  | DFunction samples =>
+      match ty with
+      | TFunction _ ret =>
+          (fix go (l : list (list prim * option dvalue)) : bool :=
+             match l with
+             | [] => true
+             | (_, Some d') :: l' => conforms ret (to_mvalue d') && fn_samples_ok ret d' && go l'
+             | (_, None) :: l' => go l'
+             end) samples
+      | _ => true
+      end
   | _ => true
   end.
 
@@ -85,6 +159,9 @@ Fixpoint pruned_hit (d : dvalue) (ops : list vop) (exprs : list prim) : bool :=
           end
       end
   | OpCall _ :: _ => true
+      (* a published function may read the per-scan module data (pe.rich_signature.version does); the harness samples
+         it under a context without that data, so the samples constrain the *kind* of the results (fn_samples_ok)
+         but do not predict the value a rule sees *)
   end.
 
 (* ---- probes: one module value use, compiled by the real compiler and evaluated by the real evaluator *)
@@ -95,18 +172,17 @@ Record probe : Type := {
   p_observed : option prim       (* what console.log received; None = nothing logged (undefined) *)
 }.
 
-Definition prim_eqb (a b : prim) : bool :=
-  match a, b with
-  | PInteger x, PInteger y => Z.eqb x y
-  | PFloat x, PFloat y => N.eqb x y
-  | PBytes x, PBytes y => bytes_eqb x y
-  | PRegex x, PRegex y => N.eqb x y
-  | PBoolean x, PBoolean y => Bool.eqb x y
-  | _, _ => false
-  end.
-
 Definition observed_res (o : option prim) : res prim :=
   match o with Some p => Ok p | None => Undef end.
+
+(* console.log shows integers, floats and byte strings; a defined boolean / regex value is observed only as
+   "defined but not logged", which the check encodes as PRegex 1 *)
+Definition obs_matches (o : option prim) (r : res prim) : bool :=
+  match o, r with
+  | Some (PRegex _), Ok (PBoolean _) => true
+  | Some (PRegex _), Ok (PRegex _) => true
+  | _, _ => res_eqb prim_eqb (observed_res o) r
+  end.
 
 Definition prim_ety (p : prim) : ety :=
   match p with
@@ -130,8 +206,7 @@ Definition probe_ok (tree : mtype) (d : dvalue) (p : probe) : bool :=
                the type the compiler assigned (C17_expr_value_typed) *)
             match p_observed p with Some o => ety_eqb (prim_ety o) e | None => true end
           else
-            res_eqb prim_eqb (observed_res (p_observed p))
-                    (model_module_expr (to_mvalue d) (ops_of (p_path p)) (p_exprs p)))
+            obs_matches (p_observed p) (model_module_expr (to_mvalue d) (ops_of (p_path p)) (p_exprs p)))
   end.
 
 (* ---- counters and caps over a dump *)
@@ -157,17 +232,21 @@ Definition d_field (name : string) (d : dvalue) : dvalue :=
   | _ => DUndefined
   end.
 
-(* A published counter equals the size of the collection it describes.  A collection that is not published
-   (undefined) has no size: its counter must be undefined or 0.  A published collection must come with its counter. *)
+(* A published counter equals the size of the collection it describes; when the collection itself is not published
+   (undefined) it has no elements and a published counter must be 0.  A counter that is not published (undefined —
+   elf leaves `symtab_entries` undefined for an empty table, on purpose) constrains nothing.  Anything else in a
+   counter slot is a violation. *)
 Definition count_ok (counter coll : string) (o : dvalue) : bool :=
-  match d_field coll o, d_field counter o with
-  | DArray len _, DInteger n => Z.eqb n (Z.of_N len)
-  | DDict len _, DInteger n => Z.eqb n (Z.of_N len)
-  | DArray _ _, _ => false
-  | DDict _ _, _ => false
-  | DUndefined, DInteger n => Z.eqb n 0
-  | DUndefined, DUndefined => true
-  | _, _ => false
+  match d_field counter o with
+  | DInteger n =>
+      match d_field coll o with
+      | DArray len _ => Z.eqb n (Z.of_N len)
+      | DDict len _ => Z.eqb n (Z.of_N len)
+      | DUndefined => Z.eqb n 0
+      | _ => false
+      end
+  | DUndefined => true
+  | _ => false
   end.
 
 Definition counts_ok (module : string) (d : dvalue) : bool :=
@@ -202,6 +281,7 @@ Definition dumps_corr (dumps : list (string * dvalue)) (probes : list (string * 
 
 Definition dumps_spec (dumps : list (string * dvalue)) : bool :=
   forallb (fun kv => conforms (module_tree (fst kv)) (to_mvalue (snd kv))
+                     && fn_samples_ok (module_tree (fst kv)) (snd kv)
                      && counts_ok (fst kv) (snd kv)
                      && caps_ok (fst kv) (snd kv)) dumps.
 
